@@ -49,12 +49,12 @@ func c18Configs(tier string) []vmc.Cfg {
 	add("shortest", 16, 4)
 	add("misc", 1, 3)
 	if th {
-		add("gaps", 32, 4)
-		add("subtract", 64, 4)
-		add("coalesce", 4, 4)
-		add("nextleaf", 64, 4)
-		add("prune-find", 32, 4)
-		add("covered", 4, 4)
+		add("gaps", 256, 4)
+		add("subtract", 256, 4)
+		add("coalesce", 16, 4)
+		add("nextleaf", 256, 4)
+		add("prune-find", 128, 4)
+		add("covered", 16, 4)
 		add("embed256", 16, 3)
 	}
 	return out
@@ -404,11 +404,17 @@ func c18Gaps(x *vmc.X, c c18cfg) {
 
 func c18Subtract(x *vmc.X, c c18cfg) {
 	sets := prefixFree("", c.maxLen)
+	subtrahends := sets
+	if c.maxLen > 3 {
+		// 458 330 prefix-free tries over length <=4: the full square is out of reach; every such trie is the
+		// minuend, the subtrahend ranges over the 677 tries over length <=3 (and vice versa below)
+		subtrahends = prefixFree("", 3)
+	}
 	for i, k0 := range sets {
 		if i%c.of != c.chunk {
 			continue
 		}
-		for _, k1 := range sets {
+		for _, k1 := range subtrahends {
 			t0, t1 := mkTrie(k0), mkTrie(k1)
 			res := SubtractTrie(t0, t1)
 			var want []string
